@@ -1467,9 +1467,62 @@ fn build(name: &str, _arg: &str, tier: Tier) -> Box<dyn Space> {
     }
 }
 
+fn cpu_ms() -> u64 {
+    // utime + stime of this process in clock ticks (10 ms)
+    let t = std::fs::read_to_string("/proc/self/stat").unwrap_or_default();
+    let rest = t.rsplit(')').next().unwrap_or("");
+    let f: Vec<&str> = rest.split_whitespace().collect();
+    let u: u64 = f.get(11).and_then(|x| x.parse().ok()).unwrap_or(0);
+    let s: u64 = f.get(12).and_then(|x| x.parse().ok()).unwrap_or(0);
+    (u + s) * 10
+}
+
+/// `--profile <space> <stride>`: CPU cost of a thorough space estimated from every stride-th case
+fn profile(space: &str, stride: u64) {
+    let sp = build(space, "", Tier::Thorough);
+    let n = sp.len();
+    let t0 = cpu_ms();
+    let mut slow: Vec<(u64, u64)> = vec![];
+    let mut seen: std::collections::BTreeMap<String, (u64, u64, String)> = Default::default();
+    let mut i = 0;
+    let mut k = 0u64;
+    while i < n {
+        let a = cpu_ms();
+        let r = sp.run(i);
+        let d = cpu_ms() - a;
+        if d >= 20 {
+            slow.push((d, i));
+        }
+        for v in &r.viols {
+            let e = seen.entry(v.symptom.clone()).or_insert((0u64, i, v.detail.clone()));
+            e.0 += 1;
+        }
+        i += stride;
+        k += 1;
+    }
+    let total = cpu_ms() - t0;
+    println!("space {space}: {n} cases, sampled {k}, cpu {total} ms, estimated total cpu {:.0} s", total as f64 / k as f64 * n as f64 / 1000.0);
+    for (sym, (n, i, d)) in &seen {
+        println!("  VIOL x{n} first #{i} {} :: {sym} :: {}", sp.describe(*i), d.chars().take(200).collect::<String>());
+    }
+    slow.sort();
+    slow.reverse();
+    let heavy: u64 = slow.iter().map(|x| x.0).sum();
+    println!("  {} sampled cases >= 20 ms, together {} ms", slow.len(), heavy);
+    for (d, i) in slow.iter().take(8) {
+        println!("  {d} ms  #{i} {}", sp.describe(*i));
+    }
+}
+
 fn main() {
     if std::env::args().any(|a| a == "--repro") {
         repro();
+        return;
+    }
+    let args: Vec<String> = std::env::args().collect();
+    if let Some(k) = args.iter().position(|a| a == "--profile") {
+        install_panic_hook();
+        profile(&args[k + 1], args[k + 2].parse().unwrap());
         return;
     }
     let Mode::Supervisor(mut c) = start("C15", "exploration", build) else { return };
